@@ -196,6 +196,10 @@ func run(c *rig.Ctx) {
 			m.Mem.Write(addr, val)
 			sweep(m, &after)
 			allowed := effect(addr, uint8(cart))
+			if addr >= 0xff30 && addr <= 0xff3f && before[0xff26]&0x04 == 0 {
+				// channel 3 is off: wave RAM is plain memory, the write reaches its own byte only
+				allowed = []span{{addr, addr}}
+			}
 			changed := 0
 			for a := 0; a < 0x10000; a++ {
 				if before[a] != after[a] {
